@@ -34,7 +34,7 @@ def _npoly(item):
 
 STRUCTURE_KEYS = ("item", "window", "waters", "damage", "rename", "chains", "input_name",
                   "lig_het", "lig_resname", "lig_drop_h", "bad_records", "renumber",
-                  "water_name", "columns")
+                  "water_name", "columns", "dimer_same_id")
 
 
 TITRATABLE = ("LYS", "ASP", "GLU", "HIS", "TYR", "CYS", "ARG")
@@ -134,6 +134,8 @@ def gen_cfg(rng, structure=None):
         if rng.random() < 0.15 and not cfg.get("chains"):
             # OXT on the last residue: no heavy atom is missing, so the repair pass is skipped
             cfg["damage"] = (cfg.get("damage") or []) + [[nres - 1, "add_oxt"]]
+        if rng.random() < 0.06 and not cfg.get("chains"):
+            cfg["dimer_same_id"] = True
         if rng.random() < 0.12:
             cfg["renumber"] = rng.choice([-40, -300, 9000, 5000, 1])
         if cfg.get("waters") and rng.random() < 0.2:
@@ -377,6 +379,9 @@ def feature_families(seed, quick):
              {"item": "cterm_hid.pdb", "lig_het": "ethanol.mol2"},
              {"item": "5vav_cyclic_peptide.pdb"},
              {"item": "cterm_hid.pdb", "bad_records": True},
+             {"item": "1AJJ.pdb", "window": [2, 12], "dimer_same_id": True},
+             {"item": "1BX8.pdb", "window": [8, 10], "dimer_same_id": True},
+             {"item": "1BX8.pdb"},
              {"item": "1AJJ.pdb", "window": [0, 12], "waters": 8, "water_name": "WAT",
               "renumber": -40, "columns": "blank"},
              {"item": "1BX8.pdb", "window": [10, 12], "renumber": 9000, "columns": "segid",
